@@ -53,6 +53,7 @@ type c15fix struct {
 	priv            ed25519.PrivateKey
 	msg, digest     []byte
 	sigPure         []byte
+	sigSharedCtx    []byte
 	batchPub        []ed25519.PublicKey
 	batchMsg        [][]byte
 	batchSig        [][]byte
@@ -61,6 +62,10 @@ type c15fix struct {
 }
 
 var fx *c15fix
+
+// sharedOpts is ONE Options value handed to every call that uses it (callers keep a package-level
+// options value; it is a read-only input).
+var sharedOpts = &ed25519.Options{Context: "shared-ctx"}
 
 func fixtures() *c15fix {
 	if fx != nil {
@@ -75,6 +80,7 @@ func fixtures() *c15fix {
 	d := sha512.Sum512(f.msg)
 	f.digest = d[:]
 	f.sigPure = stded.Sign(f.std, f.msg)
+	f.sigSharedCtx, _ = f.std.Sign(nil, f.msg, &stded.Options{Context: "shared-ctx"})
 	for i := 0; i < 70; i++ {
 		sd := make([]byte, 32)
 		sd[0], sd[1] = byte(i), 0x15
@@ -186,6 +192,15 @@ var c15ops = []c15op{
 	{"X25519LowOrder", nil, func() string { f := fixtures(); o, e := X25519(f.xScalar, make([]byte, 32)); return dig(o, e != nil) }},
 	{"EdPublicKeyToX25519", nil, func() string { f := fixtures(); o, ok := EdPublicKeyToX25519(f.pub); return dig(o, ok) }},
 	{"EdPrivateKeyToX25519", nil, func() string { f := fixtures(); return dig(EdPrivateKeyToX25519(f.priv)) }},
+	{"SignSharedOptions", nil, func() string {
+		f := fixtures()
+		s, e := f.priv.Sign(nil, f.msg, sharedOpts)
+		return dig(s, e)
+	}},
+	{"VerifySharedOptions", nil, func() string {
+		f := fixtures()
+		return dig(ed25519.VerifyWithOptions(f.pub, f.msg, f.sigSharedCtx, sharedOpts))
+	}},
 	{"PrivateKeyEqual", nil, func() string {
 		f := fixtures()
 		return dig(f.priv.Equal(f.priv), f.priv.Equal(ed25519.PrivateKey(f.std[:63])), f.pub.Equal(f.pub))
@@ -228,7 +243,7 @@ func init() {
 // before the library call; the histories over a family therefore present identical slice headers with
 // different contents (and different headers with identical contents when mixed with the main ops).
 
-var reuseFamilies = []string{"X25519BaseReuse", "X25519GenericReuse", "ScalarBaseMultReuse", "VerifyReuse", "SignReuse", "BatchReuse", "NewKeyFromSeedReuse", "EdPublicKeyToX25519Reuse", "VerifyCtxReuse"}
+var reuseFamilies = []string{"X25519BaseReuse", "X25519GenericReuse", "ScalarBaseMultReuse", "VerifyReuse", "SignReuse", "BatchReuse", "NewKeyFromSeedReuse", "EdPublicKeyToX25519Reuse", "VerifyCtxReuse", "OptionsObjectReuse"}
 
 var reuseBuf struct {
 	scalar, point, seed, key, sig []byte
@@ -239,6 +254,8 @@ var reuseBuf struct {
 	bmsg, bsig                    [][]byte
 	ctx                           []byte
 }
+
+var reuseOpts ed25519.Options
 
 func reuseInit() {
 	b := &reuseBuf
@@ -308,6 +325,14 @@ func reuseCall(fam string, v int) string {
 		copy(b.sig, sg)
 		copy(b.ctx, ctxs[v])
 		return dig(ed25519.VerifyWithOptions(b.key, b.msg, b.sig, &ed25519.Options{Context: string(b.ctx)}))
+	case "OptionsObjectReuse":
+		// the caller keeps one Options value and assigns a new context of the same length between calls
+		reuseOpts.Context = []string{"tenant-0001", "tenant-0002", "tenant-0001"}[v]
+		sg, e := f.priv.Sign(nil, f.msg, &reuseOpts)
+		cp := reuseOpts // a by-value copy of a used Options must behave like a fresh one
+		cp.Context = "tenant-0003"
+		sg2, e2 := f.priv.Sign(nil, f.msg, &cp)
+		return dig(sg, e, sg2, e2)
 	case "SignReuse":
 		sd := make([]byte, 32)
 		sd[0], sd[1] = byte(20+v/2), 0x15
